@@ -4,6 +4,7 @@
 //!   S <hex> <start> <end>   Span::new(input, start, end)
 //!   P <hex> <pos>           Position::new(input, pos)
 //!   W <hex>                 dump the display widths of the characters of the string
+//!   X <hex>                 dump the display widths of every run of two or more characters of every line of the string
 //! stdout, one line per case:
 //!   S/P:  D=<hex> R=<hex>
 //!           D  `to_string()` (default FormatOption), hex of the UTF-8 bytes
@@ -124,6 +125,26 @@ fn main() {
                         UnicodeWidthStr::width_cjk(s),
                         UnicodeWidthStr::width(s)
                     ));
+                }
+                writeln!(out, "{}", items.join(",")).unwrap();
+            }
+            ["X", h] => {
+                // display width (width_cjk of the STRING, as formatter.rs measures its pieces) of every contiguous run of characters
+                // of every line of the string:  <hex of the run>:<cells>,...
+                let Some(input) = unhex(h) else {
+                    writeln!(out, "ERROR bad case").unwrap();
+                    continue;
+                };
+                let mut items = Vec::new();
+                for line in input.split_inclusive('\n') {
+                    let idx: Vec<usize> = line.char_indices().map(|(i, _)| i).chain(std::iter::once(line.len())).collect();
+                    for i in 0..idx.len() {
+                        for j in (i + 2)..idx.len() {
+                            let piece = &line[idx[i]..idx[j]];
+                            let hx: String = piece.bytes().map(|b| format!("{:02x}", b)).collect();
+                            items.push(format!("{}:{}", hx, UnicodeWidthStr::width_cjk(piece)));
+                        }
+                    }
                 }
                 writeln!(out, "{}", items.join(",")).unwrap();
             }
